@@ -112,6 +112,7 @@ static std::string handle(const std::string& verb, const std::vector<std::string
         else if (verb == "front") { return vh::verb_front(f); }
         else if (verb == "pp") { return vh::verb_pp(f); }
         else if (verb == "diag") { return vh::verb_diag(f); }
+        else if (verb == "op") { return vh::verb_op(f); }
         else { return "bad-verb"; }
     }
     catch (const std::exception& ex)
